@@ -1002,6 +1002,9 @@ func (rn *runner) explore() {
 		}
 		rn.out.Programs++
 		rn.out.Shapes[sp.Shape]++
+		if sp.Wide {
+			rn.out.Shapes["(with a constructor of more than 64 parameters)"]++
+		}
 		nontrivial := false
 		for _, name := range prog.Live {
 			var inj *progen.Injector
